@@ -516,7 +516,7 @@ impl TypedScenario for C16Raw {
     }
     fn budget(&self, tier: Tier) -> usize {
         match tier {
-            Tier::Quick => 4000,
+            Tier::Quick => 10_000,
             Tier::Thorough => 1_500_000,
         }
     }
